@@ -33,6 +33,21 @@ def verify_function(prog, reg, key, mode='int', case=None, pruning=True, max_pat
     rep.sha = fi.sha
     rep.mode = mode
     rep.case = case['name'] if case else None
+    if getattr(c, 'skeleton', None) is not None:
+        import ast as _ast
+        actual = []
+
+        def _visit(n):
+            for ch in _ast.iter_child_nodes(n):
+                if isinstance(ch, _ast.Call):
+                    actual.append(ch.func.attr if isinstance(ch.func, _ast.Attribute) else
+                                  (ch.func.id if isinstance(ch.func, _ast.Name) else '?'))
+                _visit(ch)
+        _visit(fi.node)
+        if actual != list(c.skeleton):
+            rep.error = ('unsupported:the call skeleton of the function changed (its call-site contracts are keyed by '
+                         'source-order ordinal and no longer apply)')
+            return rep
     script = []
     path_id = 0
     suffix = (f'[{c.variant}]' if c.variant else '') + ('' if mode == 'int' and len(c.modes) == 1 else f'[{mode}]') + (f'[{case["name"]}]' if case else '')
